@@ -7,8 +7,21 @@ def run(ctx):
     schedcheck.run(ctx, 'C02')
     from vp import schedresult
     schedresult.run(ctx, 150 if ctx.tier == 'quick' else 5000)
+    schedresult.run_default_env(ctx)
 
 
 def replay(ctx, path):
     common.import_repo()
+    import json
+    case = json.load(open(path)).get('case') or {}
+    if case.get('kind') == 'default-env':
+        from vp import schedresult
+        schedresult.run_default_env(ctx)
+        for v in ctx.violations:
+            print('oracle:', v[1][:400])
+        return 0
+    if case.get('kind') == 'result':
+        print('returned value (repr):', case.get('value'), '- shape', case.get('shape'),
+              '- see harness/vp/schedresult.py; re-run ./check C02 to evaluate it')
+        return 0
     return schedcheck.replay(ctx, path, 'C02')
